@@ -38,7 +38,7 @@ CHECKS = {
             TRUST, "3/C04"),
     "C05": ("exploration", "cross-product workload on addressing fields + reference predicate on the API boundary",
             "Runs the product InResponseTo x bearer InResponseTo x Destination x audience layout x Recipient x allow_unsolicited x conversation info x "
-            "destination pattern (thinned in quick, full in thorough, also re-signed), arriving binding x endpoint layout, and assertions carried as advice (plain, inside an encrypted assertion, encrypted on their own) through parse_authn_request_response; acceptance must imply "
+            "destination pattern (thinned in quick, full in thorough, also re-signed), arriving binding x endpoint layout, and assertions carried as advice (plain, inside an encrypted assertion, encrypted on their own) through parse_authn_request_response, and SOAP-enveloped responses through the package's ECP helper; acceptance must imply "
             "every addressing rule and the conforming cells must be accepted.",
             TRUST, "3/C05"),
     "C06": ("exploration", "exhaustive status/version table on the API boundary with an independent copy of the documented class table",
@@ -50,8 +50,8 @@ CHECKS = {
     "C07": ("exploration", "generated policy/declaration/identity workload + independent reference of the release semantics over the returned XML",
             "Drives Server.create_authn_response and create_attribute_response (with their optional arguments: queried attributes, encryption, PEFIM advice, signing, alias) over policy shapes (default/per-SP, name-only, empty and regex "
             "restrictions, four entity-category modules, fail_on_missing_requested) x SP declarations (required/optional, value constraints, "
-            "unsatisfiable) x category layouts x identity shapes, several SPs answered by one long-lived Server in sequence and from threads under injected yields; the returned XML is read with the stdlib and every released (attribute, value) "
-            "must be in the identity, inside the applicable restrictions/patterns, inside the entity-category entitlement (RELEASE tables read as "
+            "unsatisfiable, the same attribute declared twice, further descriptors / services that declare nothing) x no policy configured at all x category layouts x identity shapes, several SPs answered by one long-lived Server in sequence and from threads under injected yields; the returned XML is read with the stdlib and every released (attribute, value) "
+            "must be in the identity (and there no more often than the identity holds it), inside the applicable restrictions/patterns, inside the entity-category entitlement (RELEASE tables read as "
             "data) and inside the SP's declaration where that applies - in every outcome.",
             PURE, "3/C07"),
     "C08": ("exploration", "end-to-end flow workload with independent transport readers and field-by-field oracle on what the application reads",
@@ -75,12 +75,13 @@ CHECKS = {
             "expected type and required attributes, an own or absent Destination, an IssueInstant within a day, a genuine verification of the "
             "request element itself under the issuer's key if it is signed (signed if wanted), and equal the signed original.",
             TRUST, "3/C10"),
-    "C11": ("exploration", "hostile-document workload over introspected entry points with audit-hook, parser-construction, tool-log and strace (system-call) monitors",
+    "C11": ("exploration", "hostile-document workload over introspected entry points with audit-hook, parser-construction, tool-log, inotify / listening-port and strace (system-call) monitors",
             "Feeds a catalogue of hostile documents (internal/external/parameter entities, billion laughs, external DTD, XInclude, stylesheet PI, "
             "UTF-16/BOM, text and bytes in declared encodings, truncations, non-XML) to every *_from_string of every schema module, the generic constructors, the SOAP/pack readers, the "
             "metadata loaders and the client/server parse functions in every binding. Monitors: sys.addaudithook (file/socket/urllib/subprocess), "
             "wrappers on all stdlib parser entry points installed before the package is imported (every parser built inside the package must be the "
-            "defused one), canary text in results, the xmlsec driver log, and a strace -f system-call log of the whole process tree; the repository's own test suite runs under the parser monitor in the thorough tier. A syntactic inventory of parsing call sites measures reach; an "
+            "defused one), canary text in results, the xmlsec driver log, inotify watches on the canary files and a listening local port (the operating system's view, which includes the external tool: "
+            "encrypted content whose cipher data or key is given by xenc:CipherReference / ds:RetrievalMethod URI), a good message of the same length handled right before each hostile one, and a strace -f system-call log of the whole process tree; the repository's own test suite runs under the parser monitor in the thorough tier. A syntactic inventory of parsing call sites measures reach; an "
             "unreached site makes the run inconclusive.",
             TRUST, "3/C11"),
     "C12": ("exploration", "generated instance trees for every schema class + independent structural comparator and independent parse",
@@ -92,13 +93,13 @@ CHECKS = {
     "C13": ("exploration", "table-driven constraint violation in isolation, oracle on valid_instance() in both directions",
             "For every element class builds the minimal instance satisfying all declared constraints and then violates each declared "
             "constraint in isolation (every required attribute missing/empty, every explicit occurrence bound, every attribute/text of a "
-            "checked simple type with a non-conforming value incl. near misses of the lexical space; every legal lexical form must pass), at the root and nested below valid parents, also on/below elements carrying xsi:nil, xsi:type or foreign attributes; violated must raise, satisfied "
+            "checked simple type with a non-conforming value incl. near misses of the lexical space and padding that is white space to str.strip() but not to XML; every legal lexical form must pass, and so must what class-specific verify() rules exist to let through), at the root and nested below valid parents, also on/below elements carrying xsi:nil, xsi:type or foreign attributes; violated must raise, satisfied "
             "must return True (exhaustive over the table entries, sampled over parents).",
             PURE, "3/C13"),
     "C14": ("exploration", "round-trip workload with independent readers (html.parser, urllib.parse, stdlib SOAP reader) + library decoder",
             "Packages library-made messages of several types (signed and unsigned, hostile content) and arbitrary payloads (sizes around every power of two up to 1-4 MiB) with "
             "Entity.apply_binding for POST, Redirect (also signed), SOAP, PAOS and artifact, as text and as bytes, hostile RelayStates and destinations with/without/with an empty query, a fragment or HTML-special characters, hand-written message texts (CDATA, declarations, prefixes, character references), message objects through both envelope builders, artifact endpoint indexes; an "
-            "independent reader must find exactly the expected form fields / URL parameters / SOAP body, and Entity.unravel must return the "
+            "independent reader must find exactly the expected form fields / URL parameters / SOAP body, the package's receiving-end decoder (httputil.unpack_any on the WSGI request a browser would submit) and Entity.unravel must return the "
             "original (bytes for POST/Redirect, element-equal for SOAP).",
             PURE, "3/C14"),
     "C15": ("exploration", "independent RSA verification + bounded-exhaustive histories + systematic schedule exploration (sys.monitoring gates, CHESS-style DFS)",
@@ -110,21 +111,21 @@ CHECKS = {
             PURE, "3/C15"),
     "C16": ("exploration", "generated document sets under a virtual clock + dictionary model of the declarations as oracle; signed loads through a stubbed HTTP loader with tool-log oracle",
             "Loads generated federation document sets (1..3 sources, mixed roles, endpoints, indexes, keys by use, entity categories, requested "
-            "attributes, boolean spellings, typed entity-category values, validUntil past/future/absent in every legal spelling on entities and enclosing documents, duplicates across sources) into a MetadataStore and "
+            "attributes, boolean spellings, typed entity-category values, validUntil past/future/absent in every legal spelling on entities, enclosing documents and nested aggregates, valueless entity attributes, duplicates across sources) into a MetadataStore and "
             "compares every lookup (service helpers for every role/binding, certs by use, entity_categories, attribute_requirement, "
             "with_descriptor, membership, UnknownSystemEntity vs UnsupportedBinding) with the model; loads validly signed, tampered, wrongly "
-            "certified, unsigned and wrapped metadata through every configuration form of a source and its certificate; round-trips generated SP/IdP configurations "
+            "certified, unsigned and wrapped metadata through every configuration form of a source and its certificate; round-trips generated SP/IdP configurations (key arrangements, certificate files with blank lines / text dumps / CRLF) "
             "through metadata.entity_descriptor.",
             TRUST, "3/C16"),
     "C17": ("exploration", "marker scan of emitted bytes + decryption with every key through the tool + metamorphic plain/encrypted pairs",
             "For every sign_response x sign_assertion x self-contained x {assertion, PEFIM advice, both} combination the emitted response is "
             "scanned for unique identity markers, attribute names and the NameID, decrypted with all 12 fixture keys (only the addressee's may "
-            "work) and read back by SPs whose first or second key matches or whose key is published without a use attribute; mutants of the signature, time and addressing families are delivered "
+            "work) and read back by SPs whose first or second key matches or whose key is published without a use attribute; mutants of the signature, time, addressing and schema-validity families are delivered "
             "plain and re-encrypted to the same SP (reject(plain) must imply reject(encrypted)); undecryptable content (assertion or EncryptedID) must yield no identity.",
             TRUST, "3/C17"),
     "C18": ("exploration", "reference-model monitor over operation histories (bounded-exhaustive + random), invariants after every step",
             "Replays every operation history up to a bounded depth over 2 users x 2 SPs (abstract-state pruned), long random histories on "
-            "dict- and shelve-backed IdentDB (also opened through Server with restarts), Server-level login histories over every NameIDPolicy shape, hostile field contents, pairs built to collide under an unquoted encoding (code and code_binary) and the adversarial user-id class against a dictionary model; after each "
+            "dict- and shelve-backed IdentDB (also opened through Server with restarts; removal operations must be carried out, not just fail without effect), Server-level login histories over every NameIDPolicy shape, hostile field contents, pairs built to collide under an unquoted encoding (code and code_binary) and the adversarial user-id class against a dictionary model; after each "
             "step every live identifier must resolve to its user only, withdrawn ones to nobody, persistent identifiers must be stable and "
             "distinct, and code/decode must be reversible and collision-free.",
             PURE, "3/C18"),
@@ -136,7 +137,7 @@ CHECKS = {
     "C20": ("fault_enumeration", "fault-injecting external tool (plan via environment) + offline oracle over the tool event log",
             "Enumerates fault plans (site kind x first/second/every invocation x 18 verification faults + 36 byte-exact garbled diagnostics, 10 sign/encrypt/decrypt faults, tool "
             "missing / not executable / a directory) over response, assertion, both, request (authn, logout, attribute query, manage-name-id), logout-response and in-ciphertext verification (also several encrypted assertions), statement signing, "
-            "assertion encryption and decryption with the first or second key, on valid and tampered messages. The driver marks injected events; "
+            "assertion encryption and decryption with the first or second key, on valid and tampered messages; entities built under a plan that hits the n-th tool run of any kind (informational runs included) then receive outsider-signed, valid and tampered messages in sequence. The driver marks injected events; "
             "an accepted message needs a genuine un-faulted OK per required level, a tampered message is never accepted, an identity needs a "
             "genuine decryption, and a sign/encrypt run without result must raise.",
             TRUST, "3/C20"),
